@@ -49,16 +49,17 @@ def stack_tree(s, void, opaque):
         node = (name, [])
         stack[-1][1].append(node)
         if name in opaque:
-            low = s.lower()
+            # positions are taken in s itself (str.lower() can change the length: 'İ'), matching is case-insensitive
             if name in ('script', 'style', 'textarea', 'iframe', 'xmp', 'noembed', 'noframes', 'title'):
-                e = low.find('</%s>' % name, k)          # raw text: the first end tag ends it
+                mm = re.compile('</%s>' % re.escape(name), re.I).search(s, k)          # raw text: the first end tag ends it
+                e = mm.start() if mm else -1
             else:
                 # an embedded graphic / template / list of options may contain elements of its own name: the matching end tag
-                depth, pos, e = 1, k + 1, -1
-                for mm in re.finditer(r'<(/?)%s(?=[\s/>])' % re.escape(name), low[k + 1:]):
+                depth, e = 1, -1
+                for mm in re.compile(r'<(/?)%s(?=[\s/>])' % re.escape(name), re.I).finditer(s, k + 1):
                     depth += -1 if mm.group(1) else 1
                     if depth == 0:
-                        e = k + 1 + mm.start()
+                        e = mm.start()
                         break
             i = (e + len(name) + 3) if e >= 0 else len(s)
             continue
